@@ -118,6 +118,34 @@ func AbsString(name string) string {
 // algorithm on symbolic words.
 func MakeRat(num, den int64) *big.Rat { return big.NewRat(num, den) }
 
+// A small file system for harnesses: natively a fresh temporary directory with
+// real files; in the engine an in-memory table consulted by the "vfs" stubs
+// for os.ReadFile / os.Stat / os.Getwd.
+func TempDir() string {
+	d, err := os.MkdirTemp("", "verif-vfs")
+	if err != nil {
+		panic(err)
+	}
+	return d
+}
+
+func WriteFile(path, content string) {
+	if i := strings.LastIndexByte(path, '/'); i > 0 {
+		os.MkdirAll(path[:i], 0o755)
+	}
+	if err := os.WriteFile(path, []byte(content), 0o644); err != nil {
+		panic(err)
+	}
+}
+
+func Chdir(dir string) {
+	if err := os.Chdir(dir); err != nil {
+		panic(err)
+	}
+}
+
+func RemoveAll(dir string) { os.RemoveAll(dir) }
+
 func Choice(name string, n int) int { return int(u(next(name, "int"))) }
 func Concrete(x int) int            { return x }
 
